@@ -283,6 +283,8 @@ def cli_extract_part(ctx, exe, so, items, big=frozenset()):
         os.unlink(e['VERIF_FS_LOG'])
         return rc, n
 
+    hangs = {}
+
     def one(it):
         i, (tag, A, nm) = it
         root = os.path.join(base, 'r%d' % i)
@@ -290,14 +292,21 @@ def cli_extract_part(ctx, exe, so, items, big=frozenset()):
         open(os.path.join(root, 'a.lzh'), 'wb').write(A)
         os.chmod(os.path.join(root, 'a.lzh'), 0o644)
         out = []
-        mode = ('x', 'e', 'xi')[i % 3]
+        # option shapes as a user might spell them: target directories with a trailing, doubled or leading-dot separator (the
+        # destination name is built by joining strings, and the parent-directory walk sees whatever results), absolute ones
+        mode = ('x', 'e', 'xi', 'xw=out/', 'xw=o//deep', 'ew=./p/', 'xiw=q///', 'xw=.', 'xw=' + root + '/abs//sub/', 'xqw=a/./b', 'xvw=/' + root)[i % 11]
         ans2 = ANSWERS[i % len(ANSWERS)]
+        label = mode.replace(root, '<root>')
         for rnd_no, stdin in ((1, b''), (2, ans2), (3, ANSWERS[(i * 7 + 3) % len(ANSWERS)])):
+            if hangs.get(label, 0) >= 4:
+                break           # this option shape has hung (twice each) on four inputs already: reported, no need to wait out hundreds more
             rc, n = launch(root, [mode, 'a.lzh'], stdin, 20 if tag not in big else 5)
             if rc == -999 and tag not in big:
                 rc, n = launch(root, [mode, 'a.lzh'], stdin, 60)
             bound = (len(A) // 20 + stdin.count(b'\n') + 3) * (len(A) + 200)
-            out.append((mode, rnd_no, stdin, rc, n, bound))
+            out.append((label, rnd_no, stdin, rc, n, bound))
+            if rc == -999 and tag not in big:
+                hangs[label] = hangs.get(label, 0) + 1
             if rc == -999 or rc == -signal.SIGXFSZ:
                 break
         shutil.rmtree(root, ignore_errors=True)
